@@ -11,6 +11,7 @@ import ParryModel.C05.Theorems10
 import ParryModel.C05.Theorems11
 import ParryModel.C05.Theorems12
 import ParryModel.C05.Theorems13
+import ParryModel.C05.Theorems14
 /-!
 # C05 property theorems (umbrella file)
 
@@ -30,5 +31,6 @@ import ParryModel.C05.Theorems13
 * `Theorems11.lean` — fu4: every triangle of `HeightField::triangles()` is non-degenerate; nearest-point theorem for an actual field.
 * `Theorems12.lean` — fu5: tetrahedron face regions (`check_face` sound / optimal / never for members / symmetric in the determinants).
 * `Theorems13.lean` — fu5: the whole tetrahedron cascade: every vertex / edge / face answer is the nearest member; no assert; `OnSolid` only for `solid = true`.
+* `Theorems14.lean` — fu5: tetrahedron members are fixed; interior points of a non-degenerate tetrahedron get `(true, pt)` / `OnSolid` (`solid = true`) or the documented `unimplemented!()` (`solid = false`); flag `true` only with `OnSolid`.
 `./mkaudit C05` collects the public `theorem`s of every `Theorems*.lean`.
 -/
